@@ -69,6 +69,7 @@ func genIntent(t *rapid.T, c Cfg, p reqPools) Intent {
 	}
 	in.PNA = chance(t, "pna", pnaPct)
 	in.Perturb = uniform(t, "perturb", 8)
+	in.HostLikeOrigin = chance(t, "hostlikeorigin", 12)
 	return in
 }
 
